@@ -232,6 +232,13 @@ inductive Guard
   | nobody                 -- the contract itself only (`require_queried`), or never enabled
   deriving DecidableEq, Repr
 
+/-- guards that only a privileged account can pass: contract owner, router's stored owner,
+    or a non-empty permission mask -/
+def Guard.restricted : Guard → Bool
+  | .scOwner | .storedOwner => true
+  | .perm m => m != Perm.none
+  | _ => false
+
 inductive StateReq
   | any
   | active             -- state == Active / not paused
